@@ -290,3 +290,37 @@ impl Uuid {
     #[verifier::external_body]
     pub fn as_bytes(&self) -> (r: &[u8; 16]) ensures r@ == spec_uuid_bytes(*self) { unimplemented!() }
 }
+
+// ---- secp static instance / commitment arithmetic used when a coinbase confirms (opaque)
+pub struct SecpInstance { pub s: u8 }
+pub struct SecpGuard { pub s: u8 }
+#[verifier::external_body]
+pub fn static_secp_instance() -> (r: SecpInstance) { unimplemented!() }
+impl SecpInstance {
+    #[verifier::external_body]
+    pub fn lock(&self) -> (r: SecpGuard) { unimplemented!() }
+}
+impl SecpGuard {
+    #[verifier::external_body]
+    pub fn commit_value(&self, v: u64) -> (r: Result<Commitment, secp::Error>) { unimplemented!() }
+    #[verifier::external_body]
+    pub fn commit_sum(&self, pos: Vec<Commitment>, neg: Vec<Commitment>) -> (r: Result<Commitment, secp::Error>) { unimplemented!() }
+}
+#[verifier::external]
+impl core::hash::Hash for Commitment { fn hash<H: core::hash::Hasher>(&self, state: &mut H) { } }
+impl PartialEq for Commitment { #[verifier::external_body] fn eq(&self, o: &Self) -> (r: bool) { unimplemented!() } }
+impl Eq for Commitment {}
+// L3: iterating a HashMap by reference, as a vector of entry references (iteration order unspecified)
+pub trait VfHashMapExt<K, V> { fn vf_entries<'a>(&'a self) -> Vec<(&'a K, &'a V)>; }
+impl<K, V> VfHashMapExt<K, V> for HashMap<K, V> {
+    #[verifier::external_body]
+    fn vf_entries<'a>(&'a self) -> (r: Vec<(&'a K, &'a V)>) { unimplemented!() }
+}
+// `confirmation_ts.clone().and_then(|t| (Utc::now() - t).to_std().ok())` — elapsed time, display only
+#[verifier::external_body]
+pub fn vf_elapsed_since(t: &Option<DateTime<Utc>>) -> (r: Option<Duration>) { unimplemented!() }
+pub uninterp spec fn spec_parent_path(id: Identifier) -> Identifier;
+impl Identifier {
+    #[verifier::external_body]
+    pub fn parent_path(&self) -> (r: Identifier) ensures r == spec_parent_path(*self) { unimplemented!() }
+}
